@@ -401,6 +401,29 @@ INSERT INTO z SELECT i, i%%13, CASE i%%3 WHEN 0 THEN 'k'||(i%%5) WHEN 1 THEN 'K'
 			`CREATE TRIGGER w2 AFTER INSERT ON w2 BEGIN SELECT 3; END`,
 			`INSERT INTO w2 VALUES ('x', 1), ('y', 2)`,
 		}},
+		{"generated-columns", []string{
+			// virtual generated columns are not stored (the columns behind them move up), stored ones are; a reader that
+			// does not know them must refuse the table, not shift values
+			`CREATE TABLE g1 (a, b AS (5), c)`,
+			`INSERT INTO g1 (a, c) VALUES (1, 'c1'), (2, 'c2')`,
+			`CREATE TABLE g2 (a, b GENERATED ALWAYS AS (a + 1) STORED, c)`,
+			`INSERT INTO g2 (a, c) VALUES (1, 'c1'), (2, 'c2')`,
+			`CREATE TABLE g3 (a INTEGER PRIMARY KEY, b AS (7) VIRTUAL, c, d INT AS (-3))`,
+			`INSERT INTO g3 (a, c) VALUES (1, 'c1'), (2, 'c2')`,
+			`CREATE TABLE g5 (k PRIMARY KEY, b TEXT AS (9) VIRTUAL, c) WITHOUT ROWID`,
+			`INSERT INTO g5 (k, c) VALUES ('x', 'c1'), ('y', 'c2')`,
+		}},
+		{"minimal-cells", func() []string {
+			// records without a body (NULL, the constants 0 and 1, '' and x''): cells of 4 bytes, more cells per page than
+			// any other content allows
+			st := []string{`CREATE TABLE flags (v)`, `CREATE TABLE flags2 (v, w)`, `CREATE TABLE wflags (k INTEGER PRIMARY KEY, v) WITHOUT ROWID`}
+			vals := []string{"NULL", "0", "1", "''", "x''"}
+			for i := 0; i < 300; i++ {
+				st = append(st, fmt.Sprintf("INSERT INTO flags VALUES (%s)", vals[i%5]), fmt.Sprintf("INSERT INTO flags2 VALUES (%s, %s)", vals[i%5], vals[(i/5)%5]), fmt.Sprintf("INSERT INTO wflags VALUES (%d, %s)", i, vals[i%5]))
+			}
+			st = append(st, `CREATE INDEX flags_v ON flags (v)`)
+			return st
+		}()},
 		{"empty-objects", []string{
 			`CREATE TABLE e (a, b)`,
 			`CREATE INDEX e_b ON e (b)`,
@@ -443,7 +466,9 @@ var defaultTypes = []string{"", "INTEGER", "INT", "REAL", "NUMERIC", "TEXT", "BL
 var defaultLiterals = []string{"7", "'7'", "-3", "'-3'", "2.5", "'2.5'", "'abc'", "x'00ff'", "NULL", "1e3", "'1e3'", "' 12 '", "9223372036854775807", "'9223372036854775808'", "TRUE", "false", "''", "0", "'0x10'", "+5", "'2006-01-02 15:04:05'", "abc", "'TRUE'",
 	// numbers at the precision limits of a double and of an int64, bare and as text, and numeric text in its less usual spellings
 	"'9007199254740993'", "9007199254740993", "'-4503599627370497'", "'4503599627370496'", "'9223372036854775807'", "'-9223372036854775808'", "-9223372036854775808", "'-9223372036854775809'",
-	"'9007199254740993.0'", "9007199254740993.0", "'1e18'", "1e18", "'1e19'", "'0012'", "'+12'", "'1.0'", "'1.50'", "'.5'", "'5.'", "'1E-2'", "'Inf'", "'nan'", "'1_000'", "'12abc'", "' 1.5e1 '", "-0.0", "'-0.0'", "'-0'", "x''", "x'31'"}
+	"'9007199254740993.0'", "9007199254740993.0", "'1e18'", "1e18", "'1e19'", "'0012'", "'+12'", "'1.0'", "'1.50'", "'.5'", "'5.'", "'1E-2'", "'Inf'", "'nan'", "'1_000'", "'12abc'", "' 1.5e1 '", "-0.0", "'-0.0'", "'-0'", "x''", "x'31'",
+	// quotes inside the literal, bare numbers with leading zeros (decimal for SQLite)
+	"'it''s'", "'it''s ''quoted'''", "''''", "'''a''b'''", "'a''''b'", "'\"'", "010", "-007", "+0012", "00"}
 
 // c01Defaults: the DEFAULT of a column added by ALTER TABLE, for every declared type x literal form, read
 // from a row stored before the ALTER, from a row stored after it, and from a row that stores NULL: the value SQLite reports (or the table is rejected). One table per
